@@ -269,7 +269,7 @@ func (a jsonList) diffDifferentTypes(n JsonNode, path Path, strategy patchStrate
 	default:
 		e = DiffElement{
 			Path:   path.clone(),
-			Remove: nodeList(a),
+			Remove: nodeList(jsonArray(a)),
 			Add:    nodeList(n),
 		}
 	}
@@ -283,7 +283,7 @@ func (a jsonList) diffMergePatchStrategy(b jsonList, path Path, options []Option
 				Merge: true,
 			},
 			Path: path.clone(),
-			Add:  nodeList(b),
+			Add:  nodeList(jsonArray(b)),
 		}
 		return Diff{e}
 	}
